@@ -25,7 +25,7 @@ def check(model: Model, run: Run) -> None:
     mod = mainf.module
 
     # ------------------------------------------------------------------ R1
-    run.rule('C11.R1', 'every path from the entry of Peer._main to the first _send_route_updates passes OutgoingRIB.replace_restart(previous, current), called unconditionally with the neighbor route lists', floor=2)
+    run.rule('C11.R1', 'every path from the entry of Peer._main to the first _send_route_updates passes OutgoingRIB.replace_restart(previous, current), called unconditionally with the neighbor route lists', floor=1)
     cfg = CFG(mainf.node)
     rr = model.calls_to(mod, mainf.node, 'OutgoingRIB.replace_restart')
     sends = model.calls_to(mod, mainf.node, 'Peer._send_route_updates')
@@ -44,7 +44,7 @@ def check(model: Model, run: Run) -> None:
     run.check(okargs, mainf.qualname, 'replace_restart(previous configured routes, current configured routes)', mainf.loc(rr[0]) if rr else mainf.loc(), 'the delta of configured routes is previous -> current')
 
     # ------------------------------------------------------------------ R2
-    run.rule('C11.R2', 'replace_restart re-queues EVERY cached route of the negotiated families with force=True (bypassing the dedup cache), withdraws previous-minus-new, and queues nothing else (a route that left the cache is not resurrected)', floor=4)
+    run.rule('C11.R2', 'replace_restart re-queues EVERY cached route of the negotiated families with force=True (bypassing the dedup cache), withdraws previous-minus-new, and queues nothing else (a route that left the cache is not resurrected)', floor=2)
     f = model.func(RIB + '.replace_restart')
     run.analysed(f)
     adds = model.calls_to(f.module, f.node, 'OutgoingRIB.add_to_rib')
@@ -98,7 +98,7 @@ def check(model: Model, run: Run) -> None:
     run.check(bool(drains) and 'self._refresh_families = set()' in t2 and 'self._refresh_routes = []' in t2 and 'clear_cache' not in t2 and '_seen' not in t2, orr.qualname, 'drains updates() and the refresh queues, keeps the cache', orr.loc(), 'reset drops what was pending but must keep the Adj-RIB-Out cache (it is what gets re-advertised)')
 
     # ------------------------------------------------------------------ R4
-    run.rule('C11.R4', 'End-of-RIB goes out only once the update generator is exhausted (new_routes is None) and send_eor is still true; send_eor starts as `not manual_eor` and is cleared when sent; new_eors walks negotiated.families', floor=4)
+    run.rule('C11.R4', 'End-of-RIB goes out only once the update generator is exhausted (new_routes is None) and send_eor is still true; send_eor starts as `not manual_eor` and is cleared when sent; new_eors walks negotiated.families', floor=3)
     se = model.func(PEER + '._send_eor_messages')
     run.analysed(se)
     eors = model.calls_to(se.module, se.node, 'Protocol.new_eors')
@@ -148,7 +148,7 @@ def check(model: Model, run: Run) -> None:
     run.check(each, ne.qualname, 'one EOR per negotiated family', ne.loc(), 'RFC 4724: an End-of-RIB marker for each negotiated family')
 
     # ------------------------------------------------------------------ R5
-    run.rule('C11.R5', 'a withdraw while the session is down removes the route from the cache (shared with C04.R2), so replace_restart cannot see it; the generator of the lost session is a local of _main', floor=2)
+    run.rule('C11.R5', 'a withdraw while the session is down removes the route from the cache (shared with C04.R2), so replace_restart cannot see it; the generator of the lost session is a local of _main', floor=1)
     di = model.func(RIB + '._del_from_rib_impl')
     calls = model.calls_to(di.module, di.node, 'Cache.update_cache_withdraw')
     run.check(len(calls) == 1 and any(isinstance(st, ast.Expr) and st.value is calls[0] for st in di.node.body), di.qualname, 'update_cache_withdraw(nlri) unconditionally', di.loc(), 'a withdrawn route must leave the cache whatever the session state')
